@@ -472,7 +472,7 @@ class PulseConverterCriteria(COVIncrementCriteria):
 
 # mapping from object type to appropriate criteria class
 criteria_type_map = {
-#   'accessDoor': GenericCriteria,  #TODO: needs AccessDoorCriteria
+    'accessDoor': AccessDoorCriteria,
     'accessPoint': AccessPointCriteria,
     'analogInput': COVIncrementCriteria,
     'analogOutput': COVIncrementCriteria,
@@ -489,14 +489,14 @@ criteria_type_map = {
     'multiStateInput': GenericCriteria,
     'multiStateOutput': GenericCriteria,
     'multiStateValue': GenericCriteria,
-    'octetString': GenericCriteria,
-    'characterString': GenericCriteria,
+    'octetstringValue': GenericCriteria,
+    'characterstringValue': GenericCriteria,
     'timeValue': GenericCriteria,
-    'dateTimeValue': GenericCriteria,
+    'datetimeValue': GenericCriteria,
     'dateValue': GenericCriteria,
     'timePatternValue': GenericCriteria,
     'datePatternValue': GenericCriteria,
-    'dateTimePatternValue': GenericCriteria,
+    'datetimePatternValue': GenericCriteria,
     'credentialDataInput': CredentialDataInputCriteria,
     'loadControl': LoadControlCriteria,
     'loop': GenericCriteria,
